@@ -254,8 +254,8 @@ def run(ctx):
                             asked = True
                         if tag(ai) == "op" and payload(ai)[0] == "discr" and ix.inline(kids(ai)[0]) == mf and o == ("variant", "Some"):
                             asked = True
-                    if asked and seq and seq[-1][1]:
-                        bad = bad or "the message names a new config.%s but the Config stored last on that path carries the loaded one" % f_
+                    if asked and (not seq or seq[-1][1]):
+                        bad = bad or ("the message names a new config.%s but %s" % (f_, "the Config stored last on that path carries the loaded one" if seq else "that path stores no Config at all"))
                     for i, (e1, l1, v1) in enumerate(seq):
                         if l1:
                             continue
